@@ -84,7 +84,7 @@ def main():
         for fam, r in tie["families"].items():
             if r.get("disagreements"):
                 broken.append({"kind": "tie", "name": fam, "detail": r["disagreements"][0].get("why", ""),
-                               "count": len(r["disagreements"])})
+                               "count": len(r["disagreements"]), "input": r["disagreements"][0].get("input")})
                 hints += [d for d in r["disagreements"][:20]]
 
     violations = list(tie.get("violations", [])) if tie else []
